@@ -3,7 +3,7 @@
    match (Spec/Gnmi.v qmatch). *)
 From Coq Require Import List NArith Bool Lia.
 From OC Require Import Base.Bytes Model.Merge Model.CfgStore Model.Wildcard Spec.Gnmi
-     Proofs.MergeProofs Proofs.PathProofs Proofs.WildcardProofs Proofs.CommitProofs Proofs.CommitPreserve Proofs.CommitHistory
+     Proofs.MergeProofs Proofs.TextPathProofs Proofs.WildcardProofs Proofs.CommitProofs Proofs.CommitPreserve Proofs.CommitHistory
      Proofs.PathAbstraction Proofs.GnmiHistory Proofs.WildcardElements.
 Import ListNotations.
 Open Scope N_scope.
